@@ -65,6 +65,11 @@ SysUpdate ==
             /\ sDirty' = sDirty \ {e.f}
             /\ sNeed' = {p \in sNeed : p[2] # e.f}
             /\ UNCHANGED sUnsynced
+      \* a table / index file that was deleted (old index generation dropped) has nothing left to sync
+      [] e.e = "Sys" /\ e.call = "unlink" /\ ~e.log /\ e.ret = 0 ->
+            /\ sDirty' = sDirty \ {e.f}
+            /\ sNeed' = {p \in sNeed : p[2] # e.f}
+            /\ UNCHANGED sUnsynced
       [] e.e = "TabWrite" ->
             /\ sDirty' = sDirty \cup {e.f}
             /\ UNCHANGED <<sUnsynced, sNeed>>
@@ -432,8 +437,12 @@ TRecovered ==
                        /\ \A c \in DOMAIN Ev.counts :
                             (Ev.counts[c] # <<>>) => \A k \in Keys : Ev.counts[c][k] = s[<<c, k>>].rc
            N == {n \in durable..Len(hist) : Match(n)}
+           \* one candidate per distinct recovered state (the longest prefix that yields it): states that
+           \* the observation cannot tell apart (reference counts of a btree column) are all kept, later
+           \* reads decide between them
+           Cands == {n \in N : \A m \in N : m > n => StateAfter(hist, m) # StateAfter(hist, n)}
        IN /\ N # {}
-          /\ LET n == MaxOf(N)  s == StateAfter(hist, n) IN
+          /\ \E n \in Cands : LET s == StateAfter(hist, n) IN
              /\ hist' = SubSeq(hist, 1, n)
              /\ logical' = s
              /\ tabs' = s /\ dtabs' = s
